@@ -72,7 +72,8 @@ class NullishSink:
         return "".join(self.parts)
 
 
-def scripted_run(chunks, err_chunks=(), hide=None, encoding="utf-8", explicit=False, pty=False, read_size=None, sink="stringio"):
+def scripted_run(chunks, err_chunks=(), hide=None, encoding="utf-8", explicit=False, pty=False, read_size=None, sink="stringio",
+                 watch=False):
     """real Runner.run over scripted reads; returns (stdout, stderr, mirror_out, mirror_err[, leaked])"""
     import io
     from fakerunner import Scripted
@@ -89,6 +90,9 @@ def scripted_run(chunks, err_chunks=(), hide=None, encoding="utf-8", explicit=Fa
         sys.stdout, sys.stderr = leak_o, leak_e  # with explicit streams nothing may reach the process-wide ones
     else:
         sys.stdout, sys.stderr = mo, me
+    if watch:
+        from invoke.watchers import Responder
+        kw["watchers"] = [Responder("never-in-the-output\\?", "x\n")]  # a watcher that never answers: capture must not care
     try:
         res = r.run("cmd", hide=hide, in_stream=False, encoding=encoding, **kw)
     finally:
@@ -127,7 +131,8 @@ def oracle_scripted(case, got):
 def run_scripted_case(case):
     return scripted_run([bytes.fromhex(c) for c in case["chunks"] if c], [bytes.fromhex(c) for c in case.get("err", []) if c],
                         hide=case.get("hide"), encoding=case.get("enc", "utf-8"), explicit=case.get("explicit", False),
-                        pty=case.get("pty", False), read_size=case.get("read_size"), sink=case.get("sink", "stringio"))
+                        pty=case.get("pty", False), read_size=case.get("read_size"), sink=case.get("sink", "stringio"),
+                        watch=case.get("watch", False))
 
 
 def splits(bs):
@@ -263,6 +268,13 @@ def run(ctx):
             else:
                 ck = [pre + unit + tail]
             cases.append({"kind": "scripted", "chunks": [c.hex() for c in ck if c], "enc": enc, "hide": rng.choice([None, True])})
+    # many reads (well over a hundred) with and without a watcher attached: the capture is every read, in order
+    for _ in range(ctx.n(24, 200)):
+        nchunks = rng.choice([65, 66, 70, 129, 130, 200, 300])
+        ck = [bytes(rng.choice(b"abcxyz \n" + bytes([0xC3, 0xA9])) for _ in range(rng.randint(1, 3))) for _ in range(nchunks)]
+        eck = [bytes(rng.choice(b"EF\n") for _ in range(rng.randint(1, 2))) for _ in range(rng.choice([0, 3, 70]))]
+        cases.append({"kind": "scripted", "chunks": [c.hex() for c in ck], "err": [c.hex() for c in eck], "watch": rng.random() < 0.7,
+                      "hide": rng.choice([None, True]), "explicit": rng.random() < 0.3})
     lines = ["D|" + ",".join(c["chunks"]) for c in cases]
     model = drv.run(lines) if ctx.model_ok else [None] * len(cases)
     results = common.guarded_map(run_scripted_case, cases, stall=30)
